@@ -22,6 +22,15 @@
 (* float32 represents the same values exactly - the harness compares the   *)
 (* real accumulators with `=`.                                              *)
 (*                                                                         *)
+(* NOT MODELLED: normalize_grads (rescales g before it is squared - the     *)
+(* float traces apply it to the reference as well), the momentum buffer    *)
+(* (beta1; stored int8-quantised, see Quant.tla), weight decay and the     *)
+(* learning rate: they act on the preconditioned gradient g/sqrt(nu+eps)   *)
+(* AFTER nu has been formed and never reach the accumulators - which is    *)
+(* itself checked: grid traces with beta1 / weight decay must reproduce the *)
+(* accumulators of this model.  sqrt is never evaluated by TLC; the spec    *)
+(* exports the exact rational nu and the harness applies the function.      *)
+(*                                                                         *)
 (* exact[ix] is the true (decayed) second moment of coordinate ix:         *)
 (*   exact' = b2 * exact + w * g^2      (diagonal AdaGrad / RMSProp)        *)
 (* It is a history variable: it does not influence the other variables.    *)
